@@ -315,3 +315,156 @@ Theorem check_run_direct : forall v, kind v = (-1)%Z ->
   check_C08x v (run_C08x v) = true.
 Proof. exact check_preproc_run. Qed.
 Print Assumptions check_run_direct.
+
+(** ** Third session, second round (topic J): the loader from the raw BYTES of the files, every task and the modelled
+    postprocessing (C08_Bytes.v, C08_BytesProofs.v, Pipeline_Tasks.v; statements about tasks and postprocessing themselves
+    are pinned in Pipeline_TasksProps.v).  [lines_of_file b] = what train_data_generator_from_jsonl yields for a file with
+    the bytes [b] — [C07_Files.items_of_file]: LossyUtf8Lines (Lines_Model), serde_json and the key handling (JSON_Model) —
+    an Err item as [None].  The loader drops an Err item only AFTER enumerate/take/skip/step_by: a broken line occupies a
+    position.  [loader_run_bytes] = [loader_run] on [map lines_of_file files]; [loader_run_tb] = the same for every task
+    and postprocessing ([pipeline_t]); [loader_g] = the loader with the pipeline as a parameter. *)
+From TU Require Import Lines_Model JSON_Model C07_Files C07_FilesProofs Pipeline_Tasks C08_Bytes C08_BytesProofs.
+Local Open Scope nat_scope.
+
+(** len() of a file is honest about what the generator yields: one position per line read, whatever it holds *)
+Theorem lines_len_honest : forall b, length (lines_of_file b) = count_lines b.
+Proof. exact lines_of_file_length. Qed.
+Print Assumptions lines_len_honest.
+
+(** [loader_run_bytes] on the bytes of well-formed jsonl (every item written by serde_json as one line, terminated by
+    \n or \r\n; texts of scalar values) IS [loader_run] on the lines: every theorem about [loader_run] above transfers to
+    the loader over such files.  Likewise for every task. *)
+Theorem loader_bytes_wellformed : forall opq p g b seed epoch s fs lim skip ff rank W sort shuffle prefetch blim ty,
+  Forall (Forall item_ok) fs ->
+  loader_run_bytes opq p g b seed epoch s (map jsonl_file fs) lim skip ff rank W sort shuffle prefetch blim ty =
+  loader_run opq p g b seed epoch s (map (map line_written) fs) lim skip ff rank W sort shuffle prefetch blim ty.
+Proof. exact loader_run_bytes_wf. Qed.
+Print Assumptions loader_bytes_wellformed.
+
+Theorem loader_tb_wellformed : forall opq qopq p t q maxlen seed epoch s fs lim skip ff rank W sort shuffle prefetch blim ty,
+  Forall (Forall item_ok) fs ->
+  loader_run_tb opq qopq p t q maxlen seed epoch s (map jsonl_file fs) lim skip ff rank W sort shuffle prefetch blim ty =
+  loader_run_t opq qopq p t q maxlen seed epoch s (map (map line_written) fs) lim skip ff rank W sort shuffle prefetch blim ty.
+Proof. exact loader_run_tb_wf. Qed.
+Print Assumptions loader_tb_wellformed.
+
+(** ... also when the last line of the file has no terminator (D14) *)
+Theorem lines_of_written_file_open : forall items i t, Forall item_ok items -> item_ok ((i, t), false) ->
+  lines_of_file (jsonl_file items ++ utf8s (line_of i t)) = map line_written items ++ [line_written ((i, t), false)].
+Proof. exact lines_of_jsonl_open. Qed.
+Print Assumptions lines_of_written_file_open.
+
+(** min_items is computed from count_lines of the bytes (broken lines counted) *)
+Theorem loader_bytes_min_items_count_lines :
+  forall opq p g b seed epoch s files lim skip ff rank W sort shuffle prefetch blim ty m bs,
+  files <> [] -> (N.of_nat (sum_nat (map count_lines files)) < 9223372036854775807)%N ->
+  loader_run_bytes opq p g b seed epoch s files lim skip ff rank W sort shuffle prefetch blim ty = LOk m bs ->
+  m = min_items lim skip (sum_nat (map count_lines files)).
+Proof. exact loader_bytes_min_items. Qed.
+Print Assumptions loader_bytes_min_items_count_lines.
+
+Theorem loader_tb_min_items_count_lines :
+  forall opq qopq p t q maxlen seed epoch s files lim skip ff rank W sort shuffle prefetch blim ty m bs,
+  files <> [] -> (N.of_nat (sum_nat (map count_lines files)) < 9223372036854775807)%N ->
+  loader_run_tb opq qopq p t q maxlen seed epoch s files lim skip ff rank W sort shuffle prefetch blim ty = GOk m bs ->
+  m = min_items lim skip (sum_nat (map count_lines files)).
+Proof. exact loader_tb_min_items. Qed.
+Print Assumptions loader_tb_min_items_count_lines.
+
+(** a broken line occupies a position.  One file, sequential strategy, any rank / world / skip / limit / offset and
+    batching: a delivered item with index i IS the processed line number i of the file (0-based, EVERY line counted,
+    broken or not), processed with the seed  seed + epoch + i *)
+Theorem broken_lines_count :
+  forall opq qopq p t q maxlen seed epoch b lim skip ff rank W sort shuffle prefetch blim ty m bs i y,
+  (N.of_nat (count_lines b) < 9223372036854775807)%N ->
+  loader_run_tb opq qopq p t q maxlen seed epoch Sequential [b] lim skip ff rank W sort shuffle prefetch blim ty = GOk m bs ->
+  In (i, y) (concat bs) ->
+  exists l inp tg, nth_error (lossy_lines b) i = Some l /\ item_of_line l = IItem inp tg /\
+    pipeline_t opq qopq p t q maxlen (mk_item inp (match tg with Some x => x | None => inp end))
+               (item_info seed epoch i 0) = ROk y.
+Proof. exact tb_single_file_line_number. Qed.
+Print Assumptions broken_lines_count.
+
+(** the world theorem over bytes, every strategy, task, postprocessing, batching mode: with a limit that does not cut the
+    batches of all ranks hold, each once, the processed item of every line of every file that is an item and that the
+    pipeline accepts; the generator's output is the files' lines — broken ones included, as positions — each once, in
+    per-file order, tagged with its file, count_lines many *)
+Theorem world_covers_files_bytes :
+  forall opq qopq p t q maxlen seed epoch s files sort shuffle prefetch blim ty lim W ms bss,
+  1 <= W -> files <> [] -> (N.of_nat (sum_nat (map count_lines files)) < 9223372036854775807)%N ->
+  sum_nat (map count_lines files) <= lim -> length bss = W ->
+  (forall r, r < W -> loader_run_tb opq qopq p t q maxlen seed epoch s files lim 0 0 r W sort shuffle prefetch blim ty
+                      = GOk (nth r ms 0) (nth r bss [])) ->
+  exists out, gen_lines s (seed + epoch)%N (map lines_of_file files) = Some (C07_Model.Ok out) /\
+    Permutation (concat (concat bss))
+                (keep_some (map (item_at (data_of_out out) (g_fn (pipe_res_t opq qopq p t q maxlen seed epoch)))
+                                (seq 0 (length out)))) /\
+    (forall j, proj j out = lines_of_file (nth j files [])) /\
+    length out = sum_nat (map count_lines files) /\
+    Forall (fun x => fst x < length files) out.
+Proof. exact world_covers_files_tb. Qed.
+Print Assumptions world_covers_files_bytes.
+
+(** the loader of C08_Pipeline.v is an instance of the loader with the pipeline as a parameter ... *)
+Theorem loader_run_instance : forall opq p g b seed epoch s files lim skip ff rank W sort shuffle prefetch blim ty,
+  loader_run opq p g b seed epoch s files lim skip ff rank W sort shuffle prefetch blim ty =
+  lres_of (loader_g (pipe_res opq p g b seed epoch) tsize (pcfg_ok p) s (seed + epoch)%N files
+                    lim skip ff rank W sort shuffle prefetch blim ty).
+Proof. exact loader_run_is_g. Qed.
+Print Assumptions loader_run_instance.
+
+(** ... and the world theorem holds for EVERY pipeline function and item size (hence for every task and postprocessing,
+    opaque stages included): the batches of the W ranks are a permutation of the single-process items, none is empty *)
+Theorem world_partition_every_pipeline :
+  forall (B : Type) (pres : nat -> nat * item -> res B) (size : nat * B -> nat) ok s seede files
+         sort shuffle prefetch blim ty lim skip ff W ms bss,
+  1 <= W -> files <> [] -> (N.of_nat (total_len files) < 9223372036854775807)%N -> length bss = W ->
+  (forall r, r < W -> loader_g pres size ok s seede files lim skip ff r W sort shuffle prefetch blim ty
+                      = GOk (nth r ms 0) (nth r bss [])) ->
+  exists out, gen_lines s seede files = Some (C07_Model.Ok out) /\
+    Permutation (concat (concat bss)) (loader_items (data_of_out out) (g_fn pres) lim skip ff 0 1) /\
+    Forall (fun bs => Forall (fun bt => bt <> []) bs) bss.
+Proof. exact @world_partition_g. Qed.
+Print Assumptions world_partition_every_pipeline.
+
+(** a delivered item is the pipeline's value for its global position, whatever rank / world / skip / offset delivers it *)
+Theorem item_by_index_every_pipeline :
+  forall (B : Type) (pres : nat -> nat * item -> res B) data lim skip ff rank W i t,
+  In (i, t) (loader_items data (g_fn pres) lim skip ff rank W) ->
+  exists d, nth i data None = Some d /\ pres i d = ROk t.
+Proof. exact @g_item_by_index. Qed.
+Print Assumptions item_by_index_every_pipeline.
+
+(** the run is defined (sequential / interleaved): constructors accept, no selected pipeline call panics => batches *)
+Theorem loader_total_every_pipeline :
+  forall (B : Type) (pres : nat -> nat * item -> res B) (size : nat * B -> nat) ok s seede files
+         sort shuffle prefetch blim ty lim skip ff rank W,
+  s <> Weighted -> ok = true -> files <> [] -> (N.of_nat (total_len files) < 9223372036854775807)%N ->
+  exists out, gen_lines s seede files = Some (C07_Model.Ok out) /\
+    (g_panics pres (data_of_out out) lim skip ff rank W = false ->
+     exists bs, loader_g pres size ok s seede files lim skip ff rank W sort shuffle prefetch blim ty
+                = GOk (min_items lim skip (length out)) bs).
+Proof. exact @loader_g_total_nw. Qed.
+Print Assumptions loader_total_every_pipeline.
+
+(** the executable statement of the byte loader line holds of the model's own output (or the model declares the case
+    outside its domain / a panic of the pipeline / fuel) *)
+Theorem check_run_bytes : forall v, check_loader v (run_bloader v) = true \/ run_bloader v = v_outside
+  \/ run_bloader v = v_panic \/ run_bloader v = L [I (-4)%Z].
+Proof. exact check_bloader_run. Qed.
+Print Assumptions check_run_bytes.
+
+(** Non-vacuity.  The file  x <LF> {"input":"a b"} <LF> {"input":"c"}  (first line broken, last line unterminated), two
+    ranks, generation task: three positions (min_items 3); rank 0 owns positions 0 and 2 and delivers only the item of
+    line 2, rank 1 delivers the item of line 1 — the broken line is a position of rank 0's stride *)
+Definition ex_bytes : list byte :=
+  [120; 10; 123;34;105;110;112;117;116;34;58;34;97;32;98;34;125; 10; 123;34;105;110;112;117;116;34;58;34;99;34;125]%N.
+Definition ex_brun (r : nat) : gres xitem :=
+  loader_run_tb opq_std qopq_none (PGlobal CNone)
+                (TGen false {| b_off := 256; b_sv := []; b_pre := []; b_suf := [256%N]; b_pad := 256%N |} true None)
+                (QGlobal QClip) 3 5 0 Sequential [ex_bytes] 10 0 0 r 2 false false 1 4 BatchSize.
+Example bytes_world_example :
+  lines_of_file ex_bytes = [None; Some (mk_item [97;32;98] [97;32;98]); Some (mk_item [99] [99])]%N /\
+  ex_brun 0 = GOk 3 [[(2, mk_xitem (mk_item [99] [99])%N (TIGen [99; 99]%N 256%N [99; 256]%Z))]] /\
+  ex_brun 1 = GOk 3 [[(1, mk_xitem (mk_item [97;32;98] [97;32;98])%N (TIGen [97; 32; 98]%N 256%N [32; 98; 97]%Z))]].
+Proof. vm_compute. repeat split. Qed.
